@@ -1177,7 +1177,8 @@ func (c *Ctx) loopVisitsAll(f *ssa.Function, call *ssa.Call, idx ssa.Value, arr 
 					continue
 				}
 				ret, isRet := sx.Instrs[len(sx.Instrs)-1].(*ssa.Return)
-				if !isRet || !errorPropagatingReturn(ret, 0) {
+				// the error result: the last result of the function
+				if !isRet || len(ret.Results) == 0 || ret.Results[len(ret.Results)-1].Type().String() != "error" || !errorPropagatingReturn(ret, len(ret.Results)-1) {
 					okExits = false
 				}
 			}
